@@ -21,6 +21,27 @@ CHECKS = {
         note='Bounded by MaxN (1 quick, 2 thorough); stubs use public base classes; trace validation trusts the hooks '
              'to log at the linearisation points (negative controls: corrupted traces are rejected).',
         design='5/C01'),
+    'C02': dict(
+        engine='spec/OutcomeReport.tla, spec/OutcomeReportExport.tla, spec/Outcome.tla, spec/ExecSteps.tla',
+        technique='TLC model checking of the outcome/reporter machine + replay of every TLC-enumerated run '
+                  '(status x mode x way of ending x ATC exit code) through the real CLI',
+        text='TLC enumerates every run (3 statuses x 3 output modes x pre-execution endings x every failing executor '
+             'step and outcome x cleanup fault x ATC exit codes) and checks the documented table as invariants; every '
+             'run is rendered as test-case text, executed in process (and a sample as subprocess of the default '
+             'program) and exit code, stdout and stderr token sequences are compared with the specification.',
+        note='Faults real instructions cannot produce are scripted through a stub instruction/actor added to the '
+             'default instruction set with public constructors; message wording is not compared.',
+        design='5/C02'),
+    'C03': dict(
+        engine='spec/Invalid.tla (refinement of spec/PhaseExec.tla), spec/InvalidExport.tla, spec/PhaseExecTrace.tla',
+        technique='TLC model checking of the executor refined by one-defect fault scripts + replay of every case with '
+                  'real instructions + TLC trace validation of the hook traces',
+        text='TLC enumerates 13 defect classes x phase x position x actor x front end on the executor machine and checks '
+             'that nothing is executed; every case is rendered with real instructions whose side effects are observable '
+             'outside the sandbox and run through the CLI: verdict, exit 65, no marker, no sandbox, home unchanged, '
+             'detecting step; the hook trace of each run must be a behaviour of PhaseExec.',
+        note='Bounded base case (2 / 3 effectful instructions per phase); D11 is a recorded known finding.',
+        design='5/C03'),
 }
 
 NOT_YET = 'check not built yet (planned in DESIGN.md section 5); no claim is made'
